@@ -241,6 +241,8 @@ def stage2(repo, inp, out, only, props):
     ms = [m for m in json.load(open(inp)) if m['stage1'] == 'suite-survivor']
     if only:
         ms = [m for m in ms if m['id'] in only]
+    if '--reverse' in sys.argv:
+        ms.reverse()
     if subprocess.run(['git', '-C', repo, 'status', '--porcelain', '--untracked-files=no'], stdout=subprocess.PIPE, text=True).stdout.strip():
         print('stage2: %s has uncommitted changes; refusing' % repo)
         return 2
